@@ -46,7 +46,13 @@ CONSTANTS MaxSteps,    \* bound on the length of a history
           InitKind,    \* "zero" (all variables zero) | "rich" (populated, aliased pool)
           MaxSel,      \* maximal number of selectors of a place expression
           MaxIdx,      \* slice index selectors are 1..MaxIdx
-          CopyTypes    \* types T for which AssignVar / Swap of two places of type T are generated
+          CopyTypes,   \* types T for which AssignVar / Swap of two places of type T are generated
+          Excl         \* names of the exclusions in force (random tiers): constructs of listed known findings
+
+\* F-C04-1: a struct composite literal assigned to a struct VARIABLE replaces the variable's
+\* storage in the interpreter (pointers taken before stop aliasing it).  Pinned in the
+\* exhaustive tier, excluded from the random tier, where it would end every history it occurs in.
+Excluded_F_C04_1 == "F_C04_1" \in Excl
 
 MaxLen == 4            \* slices never grow beyond 4 elements (bounds every growing value)
 
@@ -234,6 +240,9 @@ Inst(kd, ev) ==
     [] kd = "SetElem" ->
         {[Op(kd) EXCEPT !.d = d, !.v = NewVal] :
             d \in {q \in Pl("int") : q.sel # <<>> /\ ~HasDeref(q) /\ ParentT(q) \in {"A", "L"} /\ AddrE(ev, q)}}
+    [] kd = "SetLit" ->     \* D = [2]int{v, v+1} / D = S{N: v, A: [2]int{v, 0}}
+        UNION {{[Op(kd) EXCEPT !.d = d, !.v = NewVal, !.x = T] :
+                  d \in {q \in Pl(T) : AddrE(ev, q) /\ ~(Excluded_F_C04_1 /\ T = "S" /\ q.sel = <<>>)}} : T \in {"A", "S"}}
     [] kd = "SetMapEntry" ->
         {[Op(kd) EXCEPT !.d = pr[1], !.i = pr[2], !.v = NewVal, !.x = "int"] :
             pr \in {q \in Pl("M") \X (1..2) : ev[q[1]].ok /\ ev[q[1]].val.id # 0}}
@@ -372,6 +381,7 @@ Eff(op, ev) ==
         IF op.x = "int" THEN Res(Put(M, D, v), mty, <<>>, NoChk, op)
         ELSE Res(Put(M, D, S.val), mty, <<>>, ChkMove("S", op.d, op.s, S.val), op)
     [] kd \in {"SetField", "SetElem"} -> Res(Put(M, D, v), mty, <<>>, NoChk, op)
+    [] kd = "SetLit" -> Res(Put(M, D, (IF op.x = "A" THEN <<v, v + 1>> ELSE [ZeroS EXCEPT ![1] = v, ![2] = <<v, 0>>])), mty, <<>>, NoChk, op)
     [] kd = "SetMapEntry" ->
         LET mid == D.val.id IN
        (CASE op.x = "int" -> Res(SetEntry(M, mid, op.i, EntS(TRUE, v)), mty, <<>>, NoChk, op)
@@ -487,6 +497,7 @@ Act(kd, ev) == kd \in Kinds /\ \E op \in Inst(kd, ev) : Do(op, ev)
 
 \* one action per operation of the property's list
 AssignVar(ev) == Act("AssignVar", ev)            Deref(ev) == Act("Deref", ev)
+SetLit(ev) == Act("SetLit", ev)
 SetField(ev) == Act("SetField", ev)              SetElem(ev) == Act("SetElem", ev)
 SetThroughPtr(ev) == Act("SetThroughPtr", ev)    SetMapEntry(ev) == Act("SetMapEntry", ev)
 MapDelete(ev) == Act("MapDelete", ev)            MapLookup(ev) == Act("MapLookup", ev)
@@ -502,7 +513,7 @@ Capture(ev) == Act("Capture", ev)                CallFunc(ev) == Act("CallFunc",
 Box(ev) == Act("Box", ev)                        Unbox(ev) == Act("Unbox", ev)
 BindMV(ev) == Act("BindMV", ev)
 
-AllKinds == {"AssignVar", "Deref", "SetField", "SetElem", "SetThroughPtr", "SetMapEntry", "MapDelete", "MapLookup",
+AllKinds == {"AssignVar", "Deref", "SetLit", "SetField", "SetElem", "SetThroughPtr", "SetMapEntry", "MapDelete", "MapLookup",
              "Append", "AppendLL", "AppendSlice", "DeleteIdx", "Copy", "Slice2", "Slice3", "Make", "AddrOf", "Swap",
              "IdxAssign", "RebindAssign", "PassByValue", "ReturnComposite", "RangeArray", "RangeSlice", "Capture",
              "CallFunc", "Box", "Unbox", "BindMV"}
@@ -514,7 +525,7 @@ Next ==
         \/ MapDelete(ev) \/ MapLookup(ev) \/ AppendOne(ev) \/ AppendLL(ev) \/ AppendSlice(ev) \/ DeleteIdx(ev)
         \/ CopyOp(ev) \/ Slice2(ev) \/ Slice3(ev) \/ Make(ev) \/ AddrOf(ev) \/ Swap(ev) \/ IdxAssign(ev)
         \/ RebindAssign(ev) \/ PassByValue(ev) \/ ReturnComposite(ev) \/ RangeArray(ev) \/ RangeSlice(ev)
-        \/ Capture(ev) \/ CallFunc(ev) \/ Box(ev) \/ Unbox(ev) \/ BindMV(ev)
+        \/ Capture(ev) \/ CallFunc(ev) \/ Box(ev) \/ Unbox(ev) \/ BindMV(ev) \/ SetLit(ev)
 
 \* simulation: the kind is drawn first, then the instance (TLC's uniform choice among
 \* successor STATES would be dominated by the kinds with many instances)
